@@ -28,7 +28,8 @@ META = {
         " Also: SecFinder takes over the SecUnpacker's flags, find_sec and construct_tracts walk the unpacked list unfiltered, both unpackers derive found_through from thru_rightmost alone."
         ' Round 7: no de-duplication idiom (list(dict.fromkeys(..)), sorted(set(..))) in the parse path; no Twp/Rge pattern fires inside a section list followed by an E/W aliquot; result caches restore everything a miss sets.'
         " Round 8: no in-place sort / reverse of another object's list; every emitted section gives a valid TRS; 'thru.' / 'through.' are range words."
-        " Round 10: a loop that walks a list match from the right never reads, by value, a capture that only some repetitions of the pattern set (Python keeps the text of an earlier repetition); the span of the group or a re-search of the rightmost element is required."),
+        " Round 10: a loop that walks a list match from the right never reads, by value, a capture that only some repetitions of the pattern set (Python keeps the text of an earlier repetition); the span of the group or a re-search of the rightmost element is required."
+        " Round 11: the switch to the descending fill depends on the order of the two bounds and on nothing else; filling a deque at its left end counts as the reversal; the unpacker's flags are taken over by any method of the finder."),
     'families': ['RX-LANG', 'RX-GROUPS', 'RANGE', 'SIB', 'PAIR', 'ROUTE', 'FORWARD', 'DEADPARAM', 'SIB-DEFAULTS'],
 }
 
@@ -94,6 +95,8 @@ def check(ctx):
     lotf = ctx.repo.func('LotUnpacker.unpack_lots')
     a = ctx.attempt(_range_algebra, secf, 'sec')
     b = ctx.attempt(_range_algebra, lotf, 'lot')
+    ctx.attempt(_descending_fill_condition, secf)
+    ctx.attempt(_descending_fill_condition, lotf)
     if a is not None and b is not None:
         ctx.check(a == b, 'SIB', 'unpack_sections / unpack_lots agree on the range skeleton',
                   f"both: {a}", f"sections: {a}; lots: {b}", key="SIB|unpackers|range")
@@ -182,6 +185,23 @@ def every_match_registers(ctx, rule='EXC'):
                         and isinstance(a_.value, ast.ListComp) and a_.value.generators and a_.value.generators[0].ifs \
                         and norm(a_.value.generators[0].iter) == a_.targets[0].id:
                     bad.append(a_)
+            # ... or through another name: `kept = [x for x in lst if ...]` ... `lst = kept`
+            filt = {}
+            for a_ in walk_local(fi.node):
+                if isinstance(a_, ast.Assign) and len(a_.targets) == 1 and isinstance(a_.targets[0], ast.Name) \
+                        and isinstance(a_.value, ast.ListComp) and a_.value.generators and a_.value.generators[0].ifs \
+                        and isinstance(a_.value.generators[0].iter, ast.Name) and a_.value.generators[0].iter.id.endswith('_list') \
+                        and a_.targets[0].id != a_.value.generators[0].iter.id:
+                    filt[a_.targets[0].id] = a_
+            for a_ in walk_local(fi.node):
+                if isinstance(a_, ast.Assign) and isinstance(a_.value, ast.Name) and a_.value.id in filt and any(
+                        (isinstance(t, ast.Name) and t.id.endswith('_list')) or isinstance(t, ast.Attribute) for t in a_.targets):
+                    if filt[a_.value.id] not in bad:
+                        bad.append(filt[a_.value.id])
+                if isinstance(a_, ast.Call) and isinstance(a_.func, ast.Attribute) and a_.func.attr == 'extend' and a_.args \
+                        and isinstance(a_.args[0], ast.Name) and a_.args[0].id in filt and norm(a_.func.value).startswith('self.'):
+                    if filt[a_.args[0].id] not in bad:
+                        bad.append(filt[a_.args[0].id])
             if bad and not consumers:
                 ctx.undecided(rule, f"{spec}: every consumed reference registers a number",
                               f"`continue` at line {bad[0].lineno} can leave the result empty; no unguarded index on .{attr} found")
@@ -314,6 +334,33 @@ def _branch_of(node, order_var):
     return None
 
 
+def _descending_fill_condition(ctx, fi):
+    """the switch to the descending fill depends on the order of the two bounds and on nothing else"""
+    q = fi.qualname
+    order_var, start, end = _order_info(fi)
+    if order_var is None:
+        return
+    # the switch to the descending fill depends on the order of the two bounds and on nothing else
+    from ..srcmodel import literals as _literals
+    for a_ in walk_local(fi.node):
+        if isinstance(a_, ast.Assign) and isinstance(a_.targets[0], ast.Tuple) and len(a_.targets[0].elts) == 3 \
+                and isinstance(a_.value, ast.Tuple) and guards(a_):
+            # only the test that looks at the order is judged (enclosing loops / `if found_through:` have
+            # conditions of their own)
+            about = [(t_, p_) for t_, p_ in guards(a_) if any(isinstance(x, ast.Name) and x.id == order_var for x in ast.walk(t_))]
+            lits3 = _literals(about)
+            own = {order_var, start, end}
+            about_order = [t for _e, t, pol in lits3 if t == order_var]
+            extra = [t for e_, t, pol in lits3 if not ({x.id for x in ast.walk(e_) if isinstance(x, ast.Name)} <= own)
+                     and 'found_through' not in t and 'is_multi' not in t and 'thru' not in t]
+            if about_order and extra:
+                ctx.violation('RANGE', f"{q}: an out-of-order range is filled downwards whatever else holds",
+                              f"`{norm(a_)[:60]}` (the bounds of a descending range) additionally requires `{extra[0][:50]}`: when that "
+                              f"does not hold, a descending range is filled with the ascending bounds - an empty fill, so "
+                              f"'9 - 7, 5 - 3' loses 4 (the second range is not expanded)",
+                              key=f"RANGE|{q}|descending-fill-extra-condition", where=common.loc(fi, a_))
+
+
 def _range_algebra(ctx, fi, kind):
     q = fi.qualname
     order_var, start, end = _order_info(fi)
@@ -419,7 +466,10 @@ def _range_algebra(ctx, fi, kind):
     ctx.shape(any(t.startswith('found_through = thru_rightmost(') for t in txt), 'RANGE',
               f"{q}: found_through updated from thru_rightmost each pass")
     n_rev = sum(1 for t in txt if t.endswith('.reverse()'))
-    ctx.tri(n_rev == 1, n_rev == 0 and 'reversed(' not in whole and '[::-1]' not in whole, 'RANGE',
+    # filling a deque at its left end (appendleft / extendleft / insert(0, ..)) is the other way to
+    # undo the right-to-left walk
+    left_fill = any(w in whole for w in ('.appendleft(', '.extendleft(', '.insert(0,'))
+    ctx.tri(n_rev == 1, n_rev == 0 and 'reversed(' not in whole and '[::-1]' not in whole and not left_fill, 'RANGE',
             f"{q}: working list reversed exactly once",
             detail_bad="the right-to-left working list is never reversed: numbers come out last-to-first",
             key=f"RANGE|{q}|reverse")
@@ -524,12 +574,16 @@ def _routes(ctx):
     # the warnings of the section unpacker (nonsequential ...) reach the finder's flags
     sf = ctx.repo.func('SecFinder.findall_matching_sec')
     fwd = {'flags': False, 'flag_lines': False}
-    for c in ast.walk(sf.node):
-        if isinstance(c, ast.Call) and isinstance(c.func, ast.Attribute) and c.func.attr == 'extend' and c.args \
-                and isinstance(c.args[0], ast.Attribute) and c.args[0].attr in fwd \
-                and norm(c.func.value) == f"self.{c.args[0].attr}" and norm(c.args[0].value) != 'self':
-            fwd[c.args[0].attr] = True
-    built = [c for c in ast.walk(sf.node) if isinstance(c, ast.Call) and dotted(c.func) == 'SecUnpacker']
+    scopes = [sf.node]
+    if sf.cls is not None:          # ... in any method of the finder (the loop body may have become a helper)
+        scopes = [m.node for m in sf.cls.methods.values()]
+    for sc in scopes:
+        for c in ast.walk(sc):
+            if isinstance(c, ast.Call) and isinstance(c.func, ast.Attribute) and c.func.attr == 'extend' and c.args \
+                    and isinstance(c.args[0], ast.Attribute) and c.args[0].attr in fwd \
+                    and norm(c.func.value) == f"self.{c.args[0].attr}" and norm(c.args[0].value) != 'self':
+                fwd[c.args[0].attr] = True
+    built = [c for sc in scopes for c in ast.walk(sc) if isinstance(c, ast.Call) and dotted(c.func) == 'SecUnpacker']
     if built:
         ctx.check(all(fwd.values()), 'ROUTE', "SecFinder takes over the SecUnpacker's flags and flag lines",
                   detail_bad=f"SecFinder builds a SecUnpacker but does not extend its own "
